@@ -45,12 +45,14 @@ func (b *bstr) UnmarshalJSON(data []byte) error {
 }
 
 type hLabel struct {
+	R bstr `json:"r"` // subrepo, "" = host repository
 	P bstr `json:"p"`
 	S bstr `json:"s"`
 }
 
 type hInput struct {
 	T string `json:"t"` // f = file in the package, s = tool on PATH, l = build label
+	R bstr   `json:"r"`
 	P bstr   `json:"p"`
 	S bstr   `json:"s"`
 }
@@ -127,6 +129,7 @@ func hMustLabel(l hLabel) core.BuildLabel {
 	if err != nil {
 		panic(err)
 	}
+	label.Subrepo = string(l.R) // what parseLabelInPackage leaves for ///subrepo//pkg:name
 	return label
 }
 
@@ -140,7 +143,7 @@ func hBuildTarget(state *core.BuildState, t *hTarget) *core.BuildTarget {
 		case "s":
 			return core.SystemPathLabel{Name: string(in.S), Path: state.Config.Path()}
 		case "l":
-			return hMustLabel(hLabel{P: in.P, S: in.S})
+			return hMustLabel(hLabel{R: in.R, P: in.P, S: in.S})
 		}
 		panic("unknown input kind " + in.T)
 	}
